@@ -149,7 +149,11 @@ def run(rep: Report, tier: str) -> None:
 			loose = [unparse(x)[:80] for x in ast.walk(v.args[0]) if (isinstance(x, ast.Call) and isinstance(x.func, ast.Attribute) and x.func.attr in ('startswith', 'endswith', 'find', 'rfind', 'count'))
 				or (isinstance(x, ast.Compare) and len(x.ops) == 1 and isinstance(x.ops[0], (ast.In, ast.NotIn)) and not isinstance(x.comparators[0], (ast.List, ast.Tuple, ast.Set, ast.Dict, ast.Name, ast.Attribute)))] if is_hash else []
 			rn.check(not loose, 'module-hash-source:exact', hf.where, f'the file whose hash goes into the header is selected with `{loose[:1]}`: a prefix/substring relation between file paths also matches a sibling (vector.py / vector_ext.py), so the header of one module records the hash of another and an edit never triggers regeneration', unparse(v)[:200])
-			rn.check(bool(is_hash and to_file), 'module-hash-source', hf.where, f'ModuleMeta.hash must be sources.hash(<file of the module `{param}`>): `{unparse(v)[:160]}`', unparse(v)[:200])
+			covers_own = any(isinstance(x, ast.Call) and unparse(x.func).endswith('.hash') and x.args and has_call(x.args[0], 'module_path_to_filepath') and any(isinstance(y, ast.Name) and y.id == param for y in ast.walk(x.args[0])) for x in ast.walk(v))
+			rn.check(bool(is_hash and to_file) or covers_own, 'module-hash-source', hf.where, f'ModuleMeta.hash must cover sources.hash(<file of the module `{param}`>): `{unparse(v)[:160]}`', unparse(v)[:200])
+			# the output of a module depends on the modules it imports (inferred types, signatures): the recorded hash must change when one of them changes
+			deps = any((isinstance(x, ast.Attribute) and x.attr in ('imports', 'dependencies')) or (isinstance(x, ast.Call) and isinstance(x.func, ast.Attribute) and x.func.attr in ('identity', 'dependencies', 'imports')) for b_ in closure_fi(hf) for x in ast.walk(b_))
+			rn.check(deps, 'module-hash-covers-imports', hf.where, 'the hash recorded in the header is the hash of the module\'s own file only: after an edit of an imported module (`def get(self) -> int` becomes `-> str`) a non-forced run leaves the importer\'s output as it was (`int x = a.get();`) while a forced run writes `std::string x = a.get();`', unparse(v)[:160])
 
 	# ---- (b) written vs parsed form ------------------------------------------------------------------------------------
 	rb = rep.rule('C06/header-text-roundtrip', 'to_header_str and try_from_content agree on tag and separator; the entrypoint template prints meta_header on its first line; embedded and compared headers come from the same sources', floor=6)
